@@ -140,7 +140,9 @@ func acctName(i int) string {
 	return fmt.Sprintf("a%d", i)
 }
 
-func assetName(i int) string { return assetNames[((i%len(assetNames))+len(assetNames))%len(assetNames)] }
+func assetName(i int) string {
+	return assetNames[((i%len(assetNames))+len(assetNames))%len(assetNames)]
+}
 
 // scriptFor renders the Numscript text and variables of a script op.
 func scriptFor(op *Op) (plain string, vars map[string]string) {
